@@ -398,3 +398,10 @@ PROPS["C01"]["unproved"] = ["data-level round trip for plans that mix EDIFACT wi
     " (proved: mixed_roundtrip for all other plans, and the six single-mode plan shapes)"]
 PROPS["C01"]["level_text"] = ("Partial proof: the symbol-level half of the round trip is a theorem for all sizes and contents; the data-level half is a theorem for every plan over ASCII/C40/Text/X12/Base 256"
     " without a late non-ASCII latch and for the six single-mode plans (all messages, all symbol lists, every end-of-data form, all padding); for the remaining plan shapes it is exploration with a specification oracle.")
+
+PROPS["C16"]["explanation"] += (" Losslessness (DM/Props/C16.lean): macro05_lossless / macro06_lossless - for every message in the envelope the macro codeword is written, the body is handed to the encoder, and whatever"
+    " the encoder model returns for the body under any plan covered by the round-trip theorem (no EDIFACT, no latch to a non-ASCII mode within the last four characters) the decoder model turns back into the whole"
+    " original message, header and trailer included; gs1_roundtrip - the same behind FNC1 in first position.")
+PROPS["C16"]["level_text"] = ("Partial proof: decision logic of macro compaction / FNC1 start and losslessness for all bodies and all plans covered by the round-trip theorem are theorems about the models"
+    " (tied by correspondence); the remaining plan shapes (EDIFACT mixed with other modes, late latches) are exploration with a specification oracle.")
+PROPS["C01"]["explanation"] += " The same holds behind an FNC1 or Macro 05/06 prefix codeword (MainRT.fnc1_roundtrip, macro_roundtrip; stated as losslessness in DM/Props/C16.lean)."
